@@ -6,18 +6,16 @@ ONLY property theorems and non-vacuity examples; helper lemmas live in `ImmuMode
 Reading guide
 * SPEC  `LogView sp env txs k`   (Index/LogView.lean): versions of target key `k`, newest first, as a
   comprehension over the committed entries of `txs` — no bulks, no buffers, no tree.
-* MODEL `runBulks sp env {} bulks` (Index/Indexer.lean): the indexer loop `indexSince` over an arbitrary
-  sequence of bulks, inserting into the multi-version map (Index/MVMapLite.lean).  `sp.q : Quirks` selects the
-  variant of the injective-mapping branch: the default is the code AS IT IS (lookup of the previous row
-  version as of the FIRST tx of the bulk; tombstone not marked deleted when the previous entry carries
-  metadata); the theorems are stated for every setting, with the extra hypotheses exactly where a defect bites.
-  `runBulksAliased` additionally mirrors the key aliasing of the code as it is (finding F1), `indexBulkCap`
-  the bounded `_kvs` buffer.
-* Which model matches /repo as it is: `runBulksAliased` with default quirks (checked exactly by the
-  correspondence on backlog scenarios, see harness c04; the harness detects the variant at every run).  The
-  main theorems are about `runBulks`, i.e. the code after the one-line repair "copy the key";
-  `index_refines_log_fails_with_aliasing` shows the refinement is FALSE for the aliased model already on a
-  two-transaction bulk.
+* MODEL `runBulks sp env {} bulks` (Index/Indexer.lean): the indexer loop `indexSince` over a sequence of
+  bulks, inserting into the multi-version map (Index/MVMapLite.lean).  `BulksOf sp B bulks` says that the
+  grouping is one the code can form with `MaxBulkSize = B`: non-empty bulks of at most `sp.maxBulk B`
+  transactions, i.e. ONE transaction for an injective index (`indexSince` caps `maxBulkSize` there, because
+  the previous row version is looked up as of the first transaction of the bulk) and up to `B` otherwise.
+  Every KVT owns a copy of its key; `indexBulkCap` is the indexer with the pre-allocated `_kvs` buffer.
+* The model is the code as it stands after the repairs of the defects this property found (key aliasing
+  across the transactions of a bulk, lookup at the bulk start, tombstone without the deleted flag, `_kvs`
+  overrun, `Snapshot.History` revisions — see `known_findings.json`, section `fixed`).  The harness still
+  probes every one of them at every run and reports it under its old signature should it come back.
 -/
 import ImmuModel.Index.Refines
 import ImmuModel.Gen.C04
@@ -28,36 +26,35 @@ import ImmuModel.Index.Proofs.Injective
 namespace ImmuModel.Props.C04
 open ImmuModel ImmuModel.Index.L
 
-/-- **Index = log, for every partition into bulks.**  Index the transactions `bulks.flatten` (ids strictly
-increasing, e.g. `1..n`) in ANY grouping into non-empty bulks: the indexer never fails and the tree holds,
-for every key, exactly the versions the log prescribes.  For injective mappings ON THE CODE AS IT IS
-(`sp.q.lookupAtBulkStart`) the grouping must be into single transactions (see `stale_mapped_key_in_bulk`
-for why); once the lookup uses the transaction being indexed, any grouping is fine there too. -/
-theorem index_refines_log (sp : Spec) (env : Env) (bulks : List (List Tx))
-    (hne : ∀ b ∈ bulks, b ≠ [])
+/-- **Index = log, for every partition into bulks the indexer can form.**  Index the transactions
+`bulks.flatten` (ids strictly increasing, e.g. `1..n`) in ANY grouping into non-empty bulks of at most
+`MaxBulkSize = B` transactions — one transaction for an injective index, as `indexSince` does: the indexer never
+fails and the tree holds, for every key, exactly the versions the log prescribes. -/
+theorem index_refines_log (sp : Spec) (env : Env) (B : Nat) (bulks : List (List Tx))
+    (hb : BulksOf sp B bulks)
     (hids : IdsAbove 0 bulks.flatten)
-    (hok : ∀ tx ∈ bulks.flatten, TxOk sp env tx)
-    (hpart : sp.injective = false ∨ sp.q.lookupAtBulkStart = false ∨ ∀ b ∈ bulks, b.length = 1) :
+    (hok : ∀ tx ∈ bulks.flatten, TxOk sp env tx) :
     ∃ tr, runBulks sp env {} bulks = .ok tr ∧ Refines tr sp env bulks.flatten ∧ tr.ts ≤ lastId bulks.flatten :=
-  RefineAux.index_refines_log sp env bulks hne hids hok hpart
+  RefineAux.index_refines_log_bulks sp env B bulks hb hids hok
 
-/-- **Bulk-partition independence**: two groupings of the same log give the same index content. -/
-theorem bulk_partition_independent (sp : Spec) (env : Env) (b1 b2 : List (List Tx))
+/-- **Bulk-partition independence**: two groupings of the same log, formed under any two settings of
+`MaxBulkSize`, give the same index content. -/
+theorem bulk_partition_independent (sp : Spec) (env : Env) (B1 B2 : Nat) (b1 b2 : List (List Tx))
     (hflat : b1.flatten = b2.flatten)
-    (hne1 : ∀ b ∈ b1, b ≠ []) (hne2 : ∀ b ∈ b2, b ≠ [])
+    (h1 : BulksOf sp B1 b1) (h2 : BulksOf sp B2 b2)
     (hids : IdsAbove 0 b1.flatten)
-    (hok : ∀ tx ∈ b1.flatten, TxOk sp env tx)
-    (hinj : sp.injective = false ∨ sp.q.lookupAtBulkStart = false) :
+    (hok : ∀ tx ∈ b1.flatten, TxOk sp env tx) :
     ∃ t1 t2, runBulks sp env {} b1 = .ok t1 ∧ runBulks sp env {} b2 = .ok t2 ∧
       ∀ k, versions t1.m k = versions t2.m k :=
-  RefineAux.bulk_partition_independent sp env b1 b2 hflat hne1 hne2 hids hok hinj
+  RefineAux.bulk_partition_independent sp env B1 B2 b1 b2 hflat h1 h2 hids hok
 
-/-- one bulk `a ++ b` = bulk `a` followed by bulk `b` -/
+/-- one bulk `a ++ b` = bulk `a` followed by bulk `b` (non-injective index: an injective one never gathers
+two transactions) -/
 theorem indexBulk_append (sp : Spec) (env : Env) (a b : List Tx)
     (ha : a ≠ []) (hb : b ≠ [])
     (hids : IdsAbove 0 (a ++ b))
     (hok : ∀ tx ∈ a ++ b, TxOk sp env tx)
-    (hinj : sp.injective = false ∨ sp.q.lookupAtBulkStart = false) :
+    (hinj : sp.injective = false) :
     ∃ t1 t2, runBulks sp env {} [a ++ b] = .ok t1 ∧ runBulks sp env {} [a, b] = .ok t2 ∧
       ∀ k, versions t1.m k = versions t2.m k :=
   RefineAux.indexBulk_append sp env a b ha hb hids hok hinj
@@ -137,6 +134,19 @@ theorem history_errors {tr : Tree IVal} {sp : Spec} {env : Env} {txs : List Tx}
     (0 < n → n < offset → storeHistory tr.m k offset desc limit = .error .offsetOutOfRange) :=
   ReadsAux.history_errors h k offset desc limit hl
 
+/-- **`Snapshot.History` numbers revisions like `ImmuStore.History`**: the statement of
+`history_consecutive_revisions` for the snapshot's own implementation (key_reader.go). -/
+theorem snapshot_history_consecutive_revisions {tr : Tree IVal} {sp : Spec} {env : Env} {txs : List Tx}
+    (h : Refines tr sp env txs) (k : Key) (offset : Nat) (desc : Bool) (limit : Nat)
+    (refs : List Ref) (hc : Nat)
+    (hres : snapHistory tr.m k offset desc limit = .ok (refs, hc)) :
+    hc = (LogView sp env txs k).length ∧ refs.length = min limit (hc - offset) ∧ offset < hc ∧
+    ∀ i, (hi : i < refs.length) →
+      let rev := if desc then hc - offset - i else offset + 1 + i
+      refs[i].hc = rev ∧ 1 ≤ rev ∧ rev ≤ hc ∧
+      (LogView sp env txs k).reverse[rev - 1]? = some (refs[i].tx, refs[i].v) :=
+  ReadsAux.history_consecutive_revisions h k offset desc limit refs hc hres
+
 /-- **Scans return exactly the matching live keys, in key order.**  Without offset the reader yields a
 strictly sorted list (reversed when descending); a pair `(k, ref)` is in it iff `k` is in the range, has
 the prefix, its newest version passes the filters and `ref` is that newest version with its revision;
@@ -164,10 +174,9 @@ theorem prefix_lookup_exact {tr : Tree IVal} {sp : Spec} {env : Env} {txs : List
   ReadsAux.prefix_lookup_exact h now pfx neq k ref hres
 
 /-- **Injective mapping: at most one live mapped key per row.**  Secondary index `sp` (target mapper `f`,
-no source mapper) over the rows of the plain index on `sp.srcPrefix`; the mapped key determines its row;
-on the code as it is (`sp.q.tombKeepsPrevMd`) previous row versions must carry no metadata or be deletes
-(see `stale_mapped_key_expirable_prev` for the other case).  Then, after any history, two live mapped keys
-of the same row coincide.
+no source mapper) over the rows of the plain index on `sp.srcPrefix`; the mapped key determines its row.
+Then, after any history — previous row versions may carry any metadata (expirations, deletes) — two live
+mapped keys of the same row coincide.
 PARTIAL w.r.t. the design statement: source mappers (two-level SQL shape) are exercised by the
 correspondence only. -/
 theorem one_live_mapped_key_per_row_partial (sp : Spec) (f : Mapper) (txs : List Tx)
@@ -175,70 +184,25 @@ theorem one_live_mapped_key_per_row_partial (sp : Spec) (f : Mapper) (txs : List
     (hids : IdsAbove 0 txs)
     (hrow : ∀ r r' v v', f r v = f r' v' → r = r')
     (hkeys : ∀ tx ∈ txs, (tx.entries.map (fun e => e.key)).Nodup)
-    (hmd : sp.q.tombKeepsPrevMd = true →
-      ∀ tx ∈ txs, ∀ e ∈ tx.entries, e.inSource sp.srcPrefix = true → e.md.isEmpty = true ∨ e.md.deleted = true)
     (r v1 v2 : Bytes)
     (h1 : Live (LogView sp (envOfLog sp.srcPrefix txs) txs (f r v1)))
     (h2 : Live (LogView sp (envOfLog sp.srcPrefix txs) txs (f r v2))) :
     f r v1 = f r v2 :=
-  InjectiveAux.one_live_mapped_key_per_row sp f txs hsp hids hrow hkeys hmd r v1 v2 h1 h2
+  InjectiveAux.one_live_mapped_key_per_row sp f txs hsp hids hrow hkeys r v1 v2 h1 h2
 
-/-! ### witnesses of what goes wrong in the code as it is -/
+/-- **The pre-allocated `idx._kvs` is never overrun.**  `newIndexer` allocates `2 * MaxTxEntries * MaxBulkSize`
+slots; a bulk the indexer can gather (at most `sp.maxBulk B` transactions of at most `E = MaxTxEntries` entries)
+yields at most two KVTs per entry, so the bounded indexer never panics: it IS the indexer of the main theorems. -/
+theorem kvs_never_overflows (E B : Nat) (hB : 1 ≤ B) (sp : Spec) (env : Env) (tr : Tree IVal) (txs : List Tx)
+    (hlen : txs.length ≤ sp.maxBulk B) (hent : ∀ tx ∈ txs, tx.entries.length ≤ E) :
+    indexBulkCap (kvsLen E B) sp env tr txs = indexBulk sp env tr txs :=
+  InjectiveAux.kvs_never_overflows E B hB sp env tr txs hlen hent
 
-/-- **F1.** With the keys aliasing the tx entry buffers, already a bulk of two single-key transactions
-loses the first key: the aliased indexer does NOT refine the log (while the owning indexer does, and a
-bulk size of 1 hides the defect). -/
-theorem index_refines_log_fails_with_aliasing :
-    ∃ (sp : Spec) (env : Env) (txs : List Tx) (k : Key),
-      IdsAbove 0 txs ∧ (∀ tx ∈ txs, TxOk sp env tx) ∧ sp.injective = false ∧
-      (∃ st, runBulksAliased sp env ({}, []) [txs] = .ok st ∧ versions st.1.m k ≠ LogView sp env txs k ∧
-        storeGet st.1.m 0 k = .error .notFound ∧ LogView sp env txs k ≠ []) ∧
-      (∃ st, runBulksAliased sp env ({}, []) (txs.map fun tx => [tx]) = .ok st ∧
-        ∀ k', versions st.1.m k' = LogView sp env txs k') :=
-  InjectiveAux.index_refines_log_fails_with_aliasing
-
-/-- **Injective mapping + bulk of two transactions**: the previous mapped key is looked up as of the first
-tx of the bulk, so a row updated twice inside one bulk keeps two live mapped keys. -/
-theorem stale_mapped_key_in_bulk :
-    ∃ (sp : Spec) (f : Mapper) (txs : List Tx) (r v1 v2 : Bytes) (tr : Tree IVal),
-      sp.q.lookupAtBulkStart = true ∧
-      sp.injective = true ∧ sp.tmap = some f ∧ IdsAbove 0 txs ∧
-      runBulks sp (envOfLog sp.srcPrefix txs) {} [txs] = .ok tr ∧
-      Live (versions tr.m (f r v1)) ∧ Live (versions tr.m (f r v2)) ∧ f r v1 ≠ f r v2 :=
-  InjectiveAux.stale_mapped_key_in_bulk
-
-/-- **Injective mapping, previous version with metadata** (e.g. an expiration): the tombstone of the
-previous mapped key is not marked deleted — even with bulk size 1 two mapped keys of the row stay live. -/
-theorem stale_mapped_key_expirable_prev :
-    ∃ (sp : Spec) (f : Mapper) (txs : List Tx) (r v1 v2 : Bytes) (tr : Tree IVal),
-      sp.q.tombKeepsPrevMd = true ∧
-      sp.injective = true ∧ sp.tmap = some f ∧ IdsAbove 0 txs ∧
-      runBulks sp (envOfLog sp.srcPrefix txs) {} (txs.map fun tx => [tx]) = .ok tr ∧
-      Live (versions tr.m (f r v1)) ∧ Live (versions tr.m (f r v2)) ∧ f r v1 ≠ f r v2 :=
-  InjectiveAux.stale_mapped_key_expirable_prev
-
-/-- **Indexer panic.** `idx._kvs` has `MaxTxEntries * MaxBulkSize` slots but an injective mapping emits up to
-two KVTs per entry: a transaction within the entry limit overruns the slice (Go: index out of range in the
-indexer goroutine — the process dies). -/
-theorem kvs_overflow_panics :
-    ∃ (sp : Spec) (txs : List Tx) (tx : Tx) (tr : Tree IVal),
-      sp.injective = true ∧ IdsAbove 0 txs ∧ tx ∈ txs ∧ tx.entries.length = 2 ∧
-      indexBulkCap (2 * 1) sp (envOfLog sp.srcPrefix txs) tr [tx] = .error .panic :=
-  InjectiveAux.kvs_overflow_panics
-
-/-- … and with enough room the bounded indexer is exactly the indexer of the main theorems. -/
+/-- with enough room the bounded indexer is exactly the indexer of the main theorems (any capacity) -/
 theorem indexBulkCap_eq_of_room (cap : Nat) (sp : Spec) (env : Env) (tr : Tree IVal) (txs : List Tx)
     (h : ∀ kvts, txsKVTs sp env (match txs with | [] => 0 | tx0 :: _ => tx0.id) txs = .ok kvts → kvts.length ≤ cap) :
     indexBulkCap cap sp env tr txs = indexBulk sp env tr txs :=
   InjectiveAux.indexBulkCap_eq cap sp env tr txs h
-
-/-- `Snapshot.History` (key_reader.go) numbers revisions `hCount - i` whatever the offset and order:
-ascending from offset 1 over three versions it reports revisions 3,2 for the 2nd and 3rd version. -/
-theorem snapshot_history_wrong_revisions :
-    ∃ (vs : Vers IVal) (refs : List Ref) (good : List Ref) (hc : Nat),
-      vs.snapHistory 1 false 2 = .ok (refs, hc) ∧ vs.storeHistory 1 false 2 = .ok (good, hc) ∧
-      refs.map (fun r => r.hc) = [3, 2] ∧ good.map (fun r => r.hc) = [2, 3] :=
-  InjectiveAux.snapshot_history_wrong_revisions
 
 /-! ### facts regenerated from /repo at every run -/
 
@@ -263,6 +227,18 @@ theorem read_filters_match_code :
     [Filter.ignoreExpired, Filter.ignoreDeleted].map filterGoName = Gen.C04.dbScanFilters :=
   ⟨fun _ _ => rfl, by decide, by decide, by decide, by decide⟩
 
+/-- The three places of indexer.go the indexer model relies on read as the model says (extracted from the
+source tree by `extract/c04.go`; a change there breaks this theorem): the KVT gets a COPY of the target key
+(no aliasing of the reused tx buffers), `_kvs` has `2 * MaxTxEntries * MaxBulkSize` slots (`kvsLen`), and the
+previous row version is looked up as of `txID - 1` (right because `Spec.maxBulk` = 1 for injective indexes). -/
+theorem indexer_facts_match_code :
+    Gen.C04.indexSinceKeyAssign = "append(idx._kvs[indexableEntries].K[:0], targetKey...)" ∧
+    Gen.C04.newIndexerKvsLen = "2 * store.maxTxEntries * opts.IndexOpts.MaxBulkSize" ∧
+    Gen.C04.indexSincePrevLookupBound = "txID - 1" ∧
+    Gen.C04.indexSinceInjectiveBulkCap = "1" ∧
+    (∀ E B, kvsLen E B = 2 * E * B) ∧ (∀ sp B, sp.injective = true → Spec.maxBulk sp B = 1) :=
+  ⟨by decide, by decide, by decide, by decide, fun _ _ => rfl, fun sp B h => by simp [Spec.maxBulk, h]⟩
+
 /-! ### non-vacuity -/
 
 section Examples
@@ -280,10 +256,45 @@ example : IdsAbove 0 ex_txs ∧ (∀ tx ∈ ex_txs, TxOk ex_sp ex_env tx) := by
   rcases htx with rfl | rfl | rfl <;>
     simp [TxOk, txEvents, entryEvents, ex_sp, ex_env, ex_e, hasPrefix, mapKey]
 
+example : BulksOf ex_sp 2 [[ex_txs[0], ex_txs[1]], [ex_txs[2]]] := by
+  intro b hb
+  simp at hb
+  rcases hb with rfl | rfl <;> simp [Spec.maxBulk, ex_sp]
+
 example : ∃ tr, runBulks ex_sp ex_env {} [[ex_txs[0], ex_txs[1]], [ex_txs[2]]] = .ok tr ∧
     versions tr.m [1] = LogView ex_sp ex_env ex_txs [1] ∧ (LogView ex_sp ex_env ex_txs [1]).length = 2 := by
   refine ⟨_, rfl, ?_⟩
   decide
+
+open InjectiveAux in
+/-- injective index, a row updated by three consecutive transactions (the former failing input of the
+bulk-start lookup): the bulks the code forms are single transactions and only the last mapped key is live -/
+example : BulksOf spW 4 (txsB.map fun tx => [tx]) ∧
+    ∃ tr, runBulks spW (envOfLog spW.srcPrefix txsB) {} (txsB.map fun tx => [tx]) = .ok tr ∧
+      storeGet tr.m 0 (fW [1] [10]) = .error .notFound ∧ storeGet tr.m 0 (fW [1] [20]) = .error .notFound ∧
+      (storeGet tr.m 0 (fW [1] [30])).isOk = true := by
+  refine ⟨?_, _, rfl, rfl, rfl, rfl⟩
+  intro b hb
+  simp [txsB] at hb
+  rcases hb with rfl | rfl | rfl <;> simp [Spec.maxBulk, spW]
+
+open InjectiveAux in
+/-- previous row version with an expiration (the former failing input of the tombstone metadata): the old
+mapped key is tombstoned — deleted flag set, expiration kept -/
+example : ∃ tr, runBulks spW (envOfLog spW.srcPrefix txsE) {} (txsE.map fun tx => [tx]) = .ok tr ∧
+    versions tr.m (fW [1] [10]) =
+      [(2, ⟨1, [], { deleted := true, expiresAt := some 1000 }⟩), (1, ⟨1, [], { expiresAt := some 1000 }⟩)] ∧
+    storeGet tr.m 0 (fW [1] [10]) = .error .notFound := by
+  refine ⟨_, rfl, by decide, rfl⟩
+
+open InjectiveAux in
+/-- `MaxTxEntries = 2`, `MaxBulkSize = 1`: a transaction that updates two rows of an injective index needs four
+KVTs (the former panic) — they fit into `kvsLen 2 1 = 4` slots -/
+example : ∃ tr, indexBulkCap (kvsLen 2 1) spW (envOfLog spW.srcPrefix txsK) {} [txsK[1]] = .ok tr := ⟨_, rfl⟩
+
+/-- `Snapshot.History(offset = 1, ascending, limit = 2)` over three versions reports revisions 2, 3 -/
+example : ∃ refs, Vers.snapHistory 1 false 2 [(3, (⟨0, [], {}⟩ : IVal)), (2, ⟨0, [], {}⟩), (1, ⟨0, [], {}⟩)] = .ok (refs, 3) ∧
+    refs.map (fun r => r.hc) = [2, 3] := ⟨_, rfl, rfl⟩
 
 end Examples
 
